@@ -60,11 +60,15 @@ def run(chk):
             if len(v) > 1:
                 chk.violation("capacity-dependence-%s-%s" % (c, k), {"curve": c, "key": k, "distinct_proofs": len(v)},
                               "proof bytes depend on the generator capacity for %s on %s" % (k, c))
+    # (B3) sessions on toy curves in which the capacity is the state of a generator table with a history (new, increases, copies): prove / verify
+    # report InvalidGeneratorsLength exactly when the specification's table capacity is below the padded gate count (nothing else is compared)
+    for curve, n in (("toy31723", 200 if q else 3000),):
+        vlib.session_traces(chk, curve, n, dict(vlib.flags(G=1), CMP_K="1"), "threshold-session", seed_off=60)
     chk.finish(
         rule="TLC enumerates the full grid (n1, n2, capP, capV) in (0..%d)x(0..%d)x(0..%d)^2, checks ThresholdExact on the guards the protocol "
              "model uses, and prints the expected result of prove and verify for every point; every point is replayed on secq256k1, zorro, "
              "curve25519 and toy31723 (error kind, no panic), and proofs made with the same seed at different sufficient capacities must be "
-             "byte-identical. distinct = distinct (curve, n1, n2, capP, capV)" % mx,
+             "byte-identical. Recorded sessions on toy31723 whose capacities result from table histories are validated against Library.tla (capacity error iff table capacity < padded size). distinct = distinct (curve, n1, n2, capP, capV)" % mx,
         assumptions=["second-phase gates are created with allocate_multiplier inside one callback"],
         extra={"exhaustive": True})
 
